@@ -19,12 +19,15 @@ class Run:
     """A real interpreter for an abstract chart plus the projection of its state."""
 
     def __init__(self, c, variant='api', pool='plain', seed=0, ignore_contract=False, metas=True,
-                 monitor=False, sc=None, names=None, rename=None, reimport=False):
+                 monitor=False, sc=None, names=None, rename=None, reimport=False, copy_into=False):
         self.c = c
         if sc is None:
             sc, names = realize.build(c, variant, pool, seed)
         if rename is not None:
             sc, names = realize.rename_some(sc, names, rename)
+        self.host_only = set()
+        if copy_into:
+            sc, names, self.host_only = realize.plug_into_host(sc, names, gc_root=realize.gc.root(c))
         self.broken = ''
         if reimport:
             from sismic.io import import_from_yaml, export_to_yaml
@@ -61,7 +64,7 @@ class Run:
     # ---- projection
     def state(self):
         it = self.interp
-        return {'conf': sorted(self.ids[n] for n in it.configuration), 'final': bool(it.final),
+        return {'conf': sorted(self.ids[n] for n in it.configuration if n not in self.host_only), 'final': bool(it.final),
                 'time': it.time, 'x': it.context.get('x', -1)}
 
     def private(self):
@@ -86,10 +89,13 @@ class Run:
                                  'dl': 0, 'par': 0})
                 else:
                     sent.append({'k': '?', 'ev': i, 'dl': 0, 'par': p})
-            steps.append({'ev': e, 'par': par, 'cls': cls,
-                          'tr': realize.tid_of(m.transition) if m.transition is not None else 0,
-                          'entered': [self.ids[n] for n in m.entered_states],
-                          'exited': [self.ids[n] for n in m.exited_states], 'sent': sent})
+            st = {'ev': e, 'par': par, 'cls': cls,
+                  'tr': realize.tid_of(m.transition) if m.transition is not None else 0,
+                  'entered': [self.ids[n] for n in m.entered_states if n not in self.host_only],
+                  'exited': [self.ids[n] for n in m.exited_states if n not in self.host_only], 'sent': sent}
+            if self.host_only and not (st['ev'] or st['tr'] or st['entered'] or st['exited'] or sent):
+                continue        # a micro step that only concerned the host's own states
+            steps.append(st)
         return steps
 
     def owner_of(self, obj):
@@ -154,6 +160,8 @@ class Run:
         if not o['some']:
             o['rtime'] = o['post']['time']
         o['log'] = list(self.probes.log)
+        if self.host_only:      # meta-events about the host's own states are not part of the comparison
+            o['log'] = [e for e in o['log'] if not (e['k'] in ('xmeta', 'emeta') and e['a'] == -1)]
         if self.listener2 is not None:
             o['l2'] = list(self.listener2.seen)
         if self.mon is not None:
